@@ -36,6 +36,9 @@ static void prop(Src& s) {
     const bool no_meta = s.chance(1, 4);
     const bool single = s.chance(1, 3);
     const size_t piece = s.chance(1, 2) ? 0 : 1 + s.draw(s.boolean() ? 64 : 5000);
+    // consumer pacing: 0 as fast as possible, 1 a pause before the first read (queues fill up, producers block), 2 pauses between reads
+    const int pacing = static_cast<int>(s.weighted({3, 1, 2}));
+    const uint64_t pace_seed = s.draw(1ULL << 32);
     bool history = false;
     for (const auto& x : m.data) history |= !x.visible;
     std::string format = m.format;
@@ -44,7 +47,7 @@ static void prop(Src& s) {
         history = true;
     }
     if (fmt == 1 && m.format == "o5c") history = true;
-    const std::string what = m.what + " format=" + format + " mask=" + std::to_string(mask) + (no_meta ? " read_meta=no" : "") + (single ? " buffers=single" : "") + " piece=" + std::to_string(piece) + " " + p.str();
+    const std::string what = m.what + " format=" + format + " mask=" + std::to_string(mask) + (no_meta ? " read_meta=no" : "") + (single ? " buffers=single" : "") + " piece=" + std::to_string(piece) + " pacing=" + std::to_string(pacing) + " " + p.str();
     if (vp::want_desc()) vp::describe(what + " objects: " + type_seq(m.data, 12));
 
     // --- expectation 1: the model (the file came from the harness encoder)
@@ -80,8 +83,11 @@ static void prop(Src& s) {
             osmium::io::Reader reader{osmium::io::File{m.bytes.data(), m.bytes.size(), fs}, pool, mask_bits(mask), no_meta ? osmium::io::read_meta::no : osmium::io::read_meta::yes,
                                       single ? osmium::io::buffers_type::single : osmium::io::buffers_type::any};
             if (s.boolean()) (void)reader.header();
+            vp::Rng pace{pace_seed};
+            if (pacing == 1) std::this_thread::sleep_for(std::chrono::microseconds(500 + pace.below(4000)));
             while (osmium::memory::Buffer b = reader.read()) {
                 ++buffers;
+                if (pacing == 2 && pace.below(3) == 0) std::this_thread::sleep_for(std::chrono::microseconds(pace.below(600)));
                 if (reader.eof()) eof_before_end = true;
                 int first_type = -1;
                 bool mixed = false;
